@@ -32,7 +32,9 @@ OUTSIDE = ["inf / nan (listed known finding)", "symbols whose names are not symb
 CHARS = ['"', "\n", " ", "[", "]", ":", "a", "0", "c", "-", ";", "{", "é", "\\", "'", "."]
 SYM1 = ["a", "z", "."]
 SYMR = ["", "a", "1", ".", "ab", "a1"]
-INTS = [0, 1, -1, 7, -9, 10, -10, 42, 99, 100, -100, 101, 12345, -12345, 999999, -1000000]
+INTS = [0, 1, -1, 7, -9, 10, -10, 42, 99, 100, -100, 101, 12345, -12345, 999999, -1000000,
+        # extreme values: beyond the exactly representable doubles (2^53), and the ends of the 64-bit range
+        9007199254740993, -9007199254740993, 1000000000000000001, 9223372036854775807, -9223372036854775808]
 REALS = [0.5, -0.5, 1e-07, 1e+100, 1.5e-10, 123.456, 1e+16, 0.30000000000000004, 5e-324, 1.7976931348623157e+308, -2.5e-05, 100.0, 3.0]
 
 
